@@ -14,6 +14,10 @@ var (
 	alphabet = []string{"a", `"`, `\`, "ü", " ", "[", "]", ",", "1"}
 )
 
+// extraNames: a few names outside the alphabet whose JSON form uses other escapes (\u003c, \n, \u0000,
+// surrogate-free 4-byte UTF-8) or ends in several backslashes.
+var extraNames = []string{"<", "&", "\u2028", "\n", "\x00", "\x7f", "😀", `a\\\\`, `a\\\\\`, `ü"\\`, `\\a`}
+
 const placeholderText = `{"_placeholder":true,"num":0}`
 
 var (
@@ -113,6 +117,17 @@ func depth1() []*node {
 	return out
 }
 
+// depth1small = the members of depth1 whose containers have at most one child.
+func depth1small(d1 []*node) []*node {
+	var out []*node
+	for _, n := range d1 {
+		if len(n.Kids) <= 1 {
+			out = append(out, n)
+		}
+	}
+	return out
+}
+
 // depth2only = every []any / map[string]any with 0..2 children from depth1, at least one of them a container.
 func depth2only(d1 []*node, maxKids int) []*node {
 	if maxKids == 2 {
@@ -187,6 +202,10 @@ type block struct {
 	name string
 	what string
 	gen  func(emit func(*packet))
+	// distinctByConstruction: the block emits every sequence over a set of pairwise different values
+	// exactly once per type and no other block emits packets with as many arguments, so its packets
+	// need not be remembered for de-duplication (main verifies the premises it can: see checkDistinctSets).
+	distinctByConstruction bool
 }
 
 func pk(t parser.PacketType, nsp, id, name string, args []*node) *packet {
@@ -201,12 +220,17 @@ func blocks(tier string) []block {
 	repArgs := [][]*node{nil, {lInt}, {bBytes}, {lStr}, {{K: kS, Kids: []*node{bBytes}}}, {{K: kMapAny, Keys: []string{"a"}, Kids: []*node{bBytes}}}}
 
 	bl := []block{
-		{"headers", "every type x namespace x ack id, against 6 representative argument lists (EVENT, ACK) / every control payload (CONNECT, DISCONNECT, CONNECT_ERROR)", func(emit func(*packet)) {
+		{"headers", "every type x namespace x ack id, against 6 representative argument lists (EVENT, ACK; thorough: also every single argument of depth <= 1) / every control payload (CONNECT, DISCONNECT, CONNECT_ERROR)", func(emit func(*packet)) {
 			for _, nsp := range nsps {
 				for _, id := range ackIDs {
 					for _, t := range evAck {
 						for _, a := range repArgs {
 							emit(pk(t, nsp, id, "a", a))
+						}
+						if thorough {
+							for _, v := range d1 {
+								emit(pk(t, nsp, id, "a", []*node{v}))
+							}
 						}
 					}
 					for ctl := 0; ctl <= 2; ctl++ {
@@ -222,13 +246,13 @@ func blocks(tier string) []block {
 					}
 				}
 			}
-		}},
-		{"names", "every event name over the hostile alphabet up to the tier's length x namespaces {/, /a} x ack ids {none, 10} x 4 argument lists (none, number, Binary, string with a quote)", func(emit func(*packet)) {
+		}, false},
+		{"names", "every event name over the hostile alphabet up to the tier's length (plus 11 names with other escapes) x namespaces {/, /a} x ack ids {none, 10} x 4 argument lists (none, number, Binary, string with a quote)", func(emit func(*packet)) {
 			max := 2
 			if thorough {
 				max = 3
 			}
-			for _, name := range names(max) {
+			for _, name := range append(names(max), extraNames...) {
 				for _, nsp := range nsps[:2] {
 					for _, id := range []string{"", "10"} {
 						for _, a := range repArgs[:4] {
@@ -237,18 +261,21 @@ func blocks(tier string) []block {
 					}
 				}
 			}
-		}},
+		}, false},
 		{"args/1", "EVENT and ACK with one argument: every value of depth <= 1", func(emit func(*packet)) {
 			for _, t := range evAck {
 				for _, v := range d1 {
 					emit(pk(t, "/", "", "a", []*node{v}))
 				}
 			}
-		}},
-		{"args/2", "EVENT with two arguments: every pair of values of depth <= 1 (ACK: every pair of representatives)", func(emit func(*packet)) {
+		}, false},
+		{"args/2", "two arguments: every pair of values of depth <= 1 as EVENT (thorough: and as ACK; quick: ACK with every pair of representatives)", func(emit func(*packet)) {
 			for _, a := range d1 {
 				for _, b := range d1 {
 					emit(pk(parser.PacketTypeEvent, "/", "", "a", []*node{a, b}))
+					if thorough {
+						emit(pk(parser.PacketTypeAck, "/", "", "", []*node{a, b}))
+					}
 				}
 			}
 			for _, a := range reps {
@@ -256,37 +283,44 @@ func blocks(tier string) []block {
 					emit(pk(parser.PacketTypeAck, "/a", "1", "", []*node{a, b}))
 				}
 			}
-		}},
-		{"args/3", "EVENT and ACK with three arguments: every triple of leaves (quick) / of representatives (thorough)", func(emit func(*packet)) {
-			set := leaves
-			if thorough {
-				set = reps
+		}, false},
+		{"args/3", "three arguments: every triple of the depth <= 1 values whose containers have at most one child, as EVENT and ACK; thorough: also every triple of ALL values of depth <= 1 as EVENT", func(emit func(*packet)) {
+			small := depth1small(d1)
+			inSmall := map[*node]bool{}
+			for _, n := range small {
+				inSmall[n] = true
 			}
-			for _, t := range evAck {
-				for _, s := range seqs(set, 3, 3) {
-					emit(pk(t, "/", "", "a", s))
+			for _, s := range seqs(small, 3, 3) {
+				emit(pk(parser.PacketTypeAck, "/", "", "", s))
+				emit(pk(parser.PacketTypeEvent, "/", "", "a", s))
+			}
+			if thorough {
+				for _, a := range d1 {
+					for _, b := range d1 {
+						for _, c := range d1 {
+							if inSmall[a] && inSmall[b] && inSmall[c] {
+								continue // emitted above
+							}
+							emit(pk(parser.PacketTypeEvent, "/", "", "a", []*node{a, b, c}))
+						}
+					}
 				}
 			}
-		}},
-		{"args/depth2", "EVENT (thorough: and ACK) with one argument of depth 2: every []any / map[string]any with one child (quick) / up to two children (thorough) of depth 1", func(emit func(*packet)) {
-			k := 1
-			ts := evAck[:1]
-			if thorough {
-				k = 2
-				ts = evAck
-			}
-			for _, v := range depth2only(d1, k) {
-				for _, t := range ts {
-					emit(pk(t, "/", "", "a", []*node{v}))
+		}, true},
+		{"args/depth2", "one argument of depth 2: every []any / map[string]any with up to two children of depth <= 1, at least one child a container, as EVENT (thorough: and as ACK; quick: ACK with the one-child ones)", func(emit func(*packet)) {
+			for _, v := range depth2only(d1, 2) {
+				emit(pk(parser.PacketTypeEvent, "/", "", "a", []*node{v}))
+				if thorough || len(v.Kids) == 1 {
+					emit(pk(parser.PacketTypeAck, "/", "", "", []*node{v}))
 				}
 			}
-		}},
+		}, false},
 		{"typed", "statically typed nested containers (map[string]Binary, []S, []*S, map[string]*S, [][]Binary, T, *T) alone and next to a leading Binary", func(emit func(*packet)) {
 			for _, v := range typedExtras() {
 				emit(pk(parser.PacketTypeEvent, "/", "", "a", []*node{v}))
 				emit(pk(parser.PacketTypeAck, "/a", "10", "", []*node{bBytes, v}))
 			}
-		}},
+		}, false},
 	}
 	return bl
 }
